@@ -225,7 +225,7 @@ func c02width(c *an.Ctx) {
 	w := &widthAnalysis{c: c, p: p, memo: map[string]*widthSummary{}, busy: map[string]bool{}, lexer: lexer}
 	// state functions: func(*lexer) stateFn
 	var stateFns []*an.Fn
-	for _, f := range p.Fns {
+	for _, f := range p.Units() {
 		if f.Pkg == p.Jet && f.Decl != nil && f.Sig != nil && f.Sig.Recv() == nil && f.Sig.Params().Len() == 1 && an.NamedOf(f.Sig.Params().At(0).Type()) == lexer &&
 			f.Sig.Results().Len() == 1 && an.TypeName(f.Sig.Results().At(0).Type()) == "jet.stateFn" {
 			stateFns = append(stateFns, f)
@@ -257,7 +257,7 @@ func c02width(c *an.Ctx) {
 		}
 	}
 	nBackup := 0
-	for _, f := range p.Fns {
+	for _, f := range p.Units() {
 		if f.Pkg == p.Jet && f.Body != nil && w.isLexerFn(f) {
 			nBackup += len(p.CallsIn(f, "(*jet.lexer).backup"))
 		}
@@ -530,7 +530,7 @@ func c02eof(c *an.Ctx) {
 		return false
 	}
 	n := 0
-	for _, f := range p.Fns {
+	for _, f := range p.Units() {
 		if f.Pkg != p.Jet || f.Body == nil || f.Sig == nil {
 			continue
 		}
@@ -847,7 +847,7 @@ func c02drain(c *an.Ctx) {
 	// every `return nil` of a state function: errorf's result, or after emit(itemEOF)
 	lexer := p.LookupType(p.Jet, "lexer")
 	n := 0
-	for _, f := range p.Fns {
+	for _, f := range p.Units() {
 		if f.Pkg != p.Jet || f.Decl == nil || f.Sig == nil || f.Sig.Recv() != nil || f.Sig.Params().Len() != 1 || an.NamedOf(f.Sig.Params().At(0).Type()) != lexer ||
 			f.Sig.Results().Len() != 1 || an.TypeName(f.Sig.Results().At(0).Type()) != "jet.stateFn" {
 			continue
